@@ -36,7 +36,7 @@ func (c05) Batches(tier string, seed uint64) []core.Batch {
 	b = append(b, spread("corpus", 2, 0)...) // relationship fields of this machine's dpkg database
 	b = append(b, spread("arch", 4, 0)...)
 	b = append(b, spread("exh", 16, 0)...)
-	return b
+	return append(b, conc(tierN(tier, 300, 2000), "grammar", "mutant")...)
 }
 
 func (c05) Mandatory(tier string) []string {
@@ -95,6 +95,9 @@ var c05Pinned = []string{
 }
 
 func (p c05) RunBatch(t *core.T, b core.Batch) {
+	if concDispatch(p, t, b) {
+		return
+	}
 	r := t.Rand(b.Name, fmt.Sprint(b.Arg))
 	switch b.Name {
 	case "corpus":
